@@ -2,6 +2,7 @@ import PoxModel.Base.Proto
 import PoxModel.Model.Handoff
 import PoxModel.Model.CoopLock
 import PoxModel.Model.HandoffSites
+import PoxModel.Model.SendPath
 open Pox Pox.Proto Pox.Handoff
 
 def siteNames : List (String × Site) :=
@@ -144,9 +145,51 @@ def handleLock (j : J) : Except String J := do
     else throw s!"unknown lock op {k}"
   pure (J.mk [("steps", J.arr out)])
 
+/-! strict replay of C20's two-actor send-path model (`Model/SendPath.lean`, Part B): unlike `crun` (which skips
+    actions that are not enabled) this reports the first action the model cannot take.  Used by harness/c20_threads.py. -/
+namespace SP
+open Pox.SendPath
+
+def parseOutcome (j : J) : Except String Outcome := do
+  let k ← j.string "o"
+  if k = "accept" then pure (.accept (← j.nat "k"))
+  else if k = "again" then pure .again
+  else if k = "fatal" then pure .fatal
+  else throw s!"unknown outcome {k}"
+
+def parseAct (j : J) : Except String Act := do
+  let k ← j.string "a"
+  if k = "coopCheck" then pure (.coopCheck (← j.bytes "d"))
+  else if k = "coopGo" then pure (.coopGo (← parseOutcome j))
+  else if k = "coopEnq" then pure .coopEnq
+  else if k = "senderBegin" then pure .senderBegin
+  else if k = "senderSend" then pure (.senderSend (← parseOutcome j))
+  else if k = "senderFinish" then pure .senderFinish
+  else if k = "envEnq" then pure .envEnq
+  else if k = "envDone" then pure (.envDone (← j.boolean "reset"))
+  else throw s!"unknown act {k}"
+
+def strict (s : Ctl) (n : Nat) : List Act → Nat × Option Nat × Ctl
+  | [] => (n, none, s)
+  | a :: as =>
+    match cstep s a with
+    | none => (n, some n, s)
+    | some s' => strict s' (n + 1) as
+
+def handle (j : J) : Except String J := do
+  let acts ← (← j.array "acts").mapM parseAct
+  let (n, rej, s) := strict { pb := (← j.nat "pb") } 0 acts
+  pure (J.mk [("taken", J.ofNat n), ("rejected_at", J.ofOptNat rej),
+              ("accepted", J.ofBytes s.accepted), ("pending", J.arr (s.pending.map J.ofBytes)), ("disc", J.bool s.disc),
+              ("sending", J.bool s.sending), ("offered_after_disc", J.ofNat s.offeredAfterDisc),
+              ("queued", J.ofBytes s.queued), ("lock_held", J.bool s.lockHeld),
+              ("coop_idle", J.bool (s.coop = .idle)), ("sender_idle", J.bool (s.sender = .idle))])
+end SP
+
 def handle (j : J) : Except String J := do
   let op ← j.string "op"
   if op = "replay" then handleReplay j
+  else if op = "sendpath_strict" then SP.handle j
   else if op = "lock" then handleLock j
   else if op = "table" then pure tableJ
   else if op = "pinger" then
